@@ -1,6 +1,7 @@
 SPECIFICATION Spec
 CONSTANTS
-  Alphabet = {"stag", "attr", "eq", "dq", "sq", "sp", "nl", "x", "gt", "slash", "nul"}
+  Prefixes = {"stag"}
+  Alphabet = {"attr", "eq", "dq", "sq", "sp", "nl", "x", "gt", "slash", "nul"}
   MaxLen = 5
   Emit = TRUE
   VoidClosesTag = TRUE
